@@ -6,6 +6,7 @@ Import ListNotations.
 (* ---------------- monad plumbing ---------------- *)
 Section WithTrig.
 Variable trig : trig_t.
+Variable W : world.
 
 Lemma bind_ok {A B} (r:res A) (k:A -> res B) b : bind r k = Ok b -> exists a, r = Ok a /\ k a = Ok b.
 Proof. destruct r; simpl; [eauto|discriminate]. Qed.
@@ -67,6 +68,10 @@ Lemma bind_reported (r:res (list vresult)) cr :
   bind r (fun rs => Ok (reported rs)) = Ok cr -> good cr.
 Proof. intros H. apply bind_ok in H as (rs & _ & E). injection E as <-. apply reported_good. Qed.
 
+Lemma bind_reported' {A} (r:res A) (F:A -> list vresult) cr :
+  bind r (fun x => Ok (reported (F x))) = Ok cr -> good cr.
+Proof. intros H. apply bind_ok in H as (x & _ & E). injection E as <-. apply reported_good. Qed.
+
 Definition nested_good (nested:nested_t) : Prop := forall s v ep cr, nested s v ep = Ok cr -> good cr.
 
 Lemma forall_good_flat crs : Forall good crs -> (forallb fst crs = true <-> flat_map snd crs = []).
@@ -78,7 +83,7 @@ Proof.
 Qed.
 
 Lemma evalc_good nested g E s fvs ep c cr :
-  nested_good nested -> evalc trig nested g E s fvs ep c = Ok cr -> good cr.
+  nested_good nested -> evalc trig W nested g E s fvs ep c = Ok cr -> good cr.
 Proof.
   intros Hn. destruct c; cbn [evalc].
   - intros [= <-]. apply reported_good.
@@ -98,6 +103,7 @@ Proof.
     destruct (for_values_in _ _ _ Er cr Hcr) as (f & vs & v & l2 & _ & _ & Ek & Hin).
     apply bind_ok in Ek as (cr2 & En & E2). injection E2 as <-. destruct Hin as [<-|[]]. eapply Hn; eauto.
   - destruct (_ && _ && _); [intros [= <-]; apply trivially_good|]. apply bind_reported.
+  - destruct (negb closed); [intros [= <-]; apply trivially_good|]. apply bind_reported'.
 Qed.
 
 (* the constraint loop of a nested evaluation keeps `non_conformant <-> some report` *)
@@ -124,7 +130,7 @@ Proof.
 Qed.
 
 Theorem vshape_good o g E : forall fuel ep s foci cr,
-  vshape trig fuel o g E false ep s foci = Ok cr -> good cr.
+  vshape trig W fuel o g E false ep s foci = Ok cr -> good cr.
 Proof.
   induction fuel as [|fuel IH]; intros ep s foci cr; cbn [vshape];
     (destruct (deact s); [intros [= <-]; apply trivially_good|]);
@@ -170,7 +176,7 @@ Proof.
 Qed.
 
 Theorem vshape_top_verdict o g E fuel s foci cr :
-  vshape trig fuel o g E true [] s foci = Ok cr -> fst cr = all_waived o (snd cr).
+  vshape trig W fuel o g E true [] s foci = Ok cr -> fst cr = all_waived o (snd cr).
 Proof.
   destruct fuel as [|fuel]; cbn [vshape];
     (destruct (deact s); [intros [= <-]; reflexivity|]);
@@ -181,7 +187,7 @@ Proof.
 Qed.
 
 Lemma validate_top_verdict o sg g E s explicit cr :
-  validate_top trig o sg g E s explicit = Ok cr -> fst cr = all_waived (eopts_of o) (snd cr).
+  validate_top trig W o sg g E s explicit = Ok cr -> fst cr = all_waived (eopts_of o) (snd cr).
 Proof.
   unfold validate_top. destruct (deact s); [intros [= <-]; reflexivity|].
   destruct explicit as [foci|].
@@ -193,7 +199,7 @@ Qed.
 
 Lemma run_shapes_verdict o sg g E explicit : forall shapes nc acc cr,
   nc = negb (all_waived (eopts_of o) acc) ->
-  run_shapes trig o sg g E shapes explicit nc acc = Ok cr -> fst cr = all_waived (eopts_of o) (snd cr).
+  run_shapes trig W o sg g E shapes explicit nc acc = Ok cr -> fst cr = all_waived (eopts_of o) (snd cr).
 Proof.
   induction shapes as [|s rest IH]; intros nc acc cr Hinv; cbn [run_shapes].
   - intros [= <-]. simpl. rewrite Hinv, negb_involutive. reflexivity.
@@ -208,12 +214,12 @@ Qed.
 (* The verdict is 'conforms' exactly when every reported top-level result has a waived
    severity; with no waiver: exactly when there is no result. Holds with and without abort_on_first. *)
 Theorem validate_verdict o sg g E c rs :
-  validate trig o sg g E = Ok (c, rs) -> c = all_waived (eopts_of o) rs.
+  validate trig W o sg g E = Ok (c, rs) -> c = all_waived (eopts_of o) rs.
 Proof. intros H. apply (run_shapes_verdict o sg g E None E false [] (c, rs) eq_refl H). Qed.
 
 Corollary validate_verdict_default o sg g E c rs :
   allow_infos o = false -> allow_warnings o = false ->
-  validate trig o sg g E = Ok (c, rs) -> (c = true <-> rs = []).
+  validate trig W o sg g E = Ok (c, rs) -> (c = true <-> rs = []).
 Proof.
   intros Hi Hw H. apply validate_verdict in H. subst c.
   destruct rs as [|r rs]; [simpl; tauto|].
